@@ -184,7 +184,7 @@ impl Scenario for Rpc {
         v.push(json!({"programs": [["declare", "purge"], ["publish", "delete"]], "hold": false, "fine": true}));
         // a high-water mark below one publish (default low-water mark): every publish is a
         // throttling episode, and the calls behind it still get their own replies
-        v.push(json!({"programs": [["publish", "declare", "purge"], ["purge", "publish", "declare"]], "hold": false, "high": 64}));
+        v.push(json!({"programs": [["publish", "declare", "purge"], ["purge", "publish", "declare"]], "hold": false, "high": 32}));
         if tier == "thorough" {
             v.push(json!({"programs": [["declare", "declare_auto", "declare_passive"], ["purge", "delete", "purge"], ["get_empty", "consume_cancel"]], "hold": true}));
             v.push(json!({"programs": [["bind", "declare"], ["recover", "purge"], ["confirm", "delete"]], "hold": false}));
